@@ -639,7 +639,7 @@ func main() {
 		return
 	}
 
-	nStack := 900
+	nStack := 600
 	if *tier == "thorough" {
 		nStack = 12000
 	}
@@ -684,7 +684,7 @@ func main() {
 	writeJSONL(*out, "scases.jsonl", sj)
 	m.Samples = append(m.Samples, sj[len(sj)-1])
 
-	nCfg := 300
+	nCfg := 200
 	if *tier == "thorough" {
 		nCfg = 4000
 	}
